@@ -48,6 +48,25 @@ def _eval(case):
     with sc.write_project(tree) as proj:
         base = proj.path(root)
         lines = []
+        if case.get("relative"):
+            # root_path / module_path given relative to the working directory (run from the directory that holds the project)
+            import os
+
+            from ..impl import err_kind, get_evaluable_architecture, graph_snapshot
+
+            base = root
+            cwd = os.getcwd()
+            os.chdir(proj.path())
+            try:
+                for (xx, ext) in case["configs"]:
+                    kw = sc.kw_for(("G", ("*__pycache__*",)), xx, None, ext)
+                    try:
+                        res.append(sc.snapshot_str(*graph_snapshot(get_evaluable_architecture(root, mp, **kw))))
+                    except Exception as e:  # noqa: BLE001
+                        res.append("ERR:" + err_kind(e))
+            finally:
+                os.chdir(cwd)
+            return res, base
         for (xx, ext) in case["configs"]:
             kw = sc.kw_for(("G", ("*__pycache__*",)), xx, None, ext)
             res.append(sc.real_scan(proj, root, mp, **kw))
@@ -76,7 +95,7 @@ def judge(ctx, stream, cases):
             line = lines[k]
             k += 1
             stream.evaluations += 1
-            stream.count(("excluded" if xx else "included") + ("+" + ext[0] if ext[1] else ""))
+            stream.count(("excluded" if xx else "included") + ("+" + ext[0] if ext[1] else "") + (" relative-paths" if case.get("relative") else ""))
             if exts:
                 stream.nontrivial.add(digest((sorted(case["tree"]), mp, xx, ext)))
             I = sc.parse_snapshot(impl)
@@ -146,7 +165,7 @@ def stream_cases(ctx: Ctx, s, n, rng):
             configs.append((False, ("G", g)))
             r = tuple(rng.choice([r"os(\..*)?$", r"ext\.lib", r".*\.m$", r"proj.*", r"a$", r"ab\.", r".*x"]) for _ in range(rng.randint(1, 2)))
             configs.append((False, ("R", r)))
-            cases.append({"tree": tree, "root": "proj", "mp": mp, "configs": configs})
+            cases.append({"tree": tree, "root": "proj", "mp": mp, "configs": configs, "relative": rng.random() < 0.25})
         judge(ctx, s, cases)
         done += len(cases)
 
